@@ -855,13 +855,10 @@ def _execute(sc: dict, ch: Choices, storage_dir: Optional[str], storage_obj=None
             if e.kind == 'main':
                 if not rec.in_run:
                     return None
-                rec.main_lines += 1
-                if ip is not None:
-                    ip.on_main_line()
                 if line_coord:
                     sim.yp('line')
             elif e.kind == 'worker':
-                if e.phase == 'save' and (inject_line is not None or count_lines):
+                if e.phase == 'save' and (inject_line is not None or count_lines) and not linemon.starts_with_nop(code, line):
                     idx = window_lines[0]
                     window_lines[0] += 1
                     if count_lines:
@@ -876,14 +873,31 @@ def _execute(sc: dict, ch: Choices, storage_dir: Optional[str], storage_obj=None
             elif line_coord:
                 sim.yp('line')
             return None
+
+        def cp_handler(code, kind):
+            # an instant at which a pending signal can surface in Python code of the calling thread
+            if sim.dead or not rec.in_run:
+                return None
+            e = sim.me()
+            if e is None or e.kind != 'main':
+                return None
+            rec.main_lines += 1
+            if ip is not None:
+                ip.on_main_line()
+            return None
     else:
-        def handler(code, line):
+        def cp_handler(code, kind):
             if not rec.in_run:
                 return None
             rec.main_lines += 1
             if ip is not None:
                 ip.on_main_line()
-            if probe.save_armed is not None and (inject_line is not None or count_lines):
+            return None
+
+        def handler(code, line):
+            if not rec.in_run:
+                return None
+            if probe.save_armed is not None and (inject_line is not None or count_lines) and not linemon.starts_with_nop(code, line):
                 idx = window_lines[0]
                 window_lines[0] += 1
                 if count_lines:
@@ -972,7 +986,7 @@ def _execute(sc: dict, ch: Choices, storage_dir: Optional[str], storage_obj=None
         if sim is not None:
             rec.ev('clock', round(sim.clock, 3))      # virtual time at which the observed run_tasks call begins
         if need_lines:
-            linemon.start(handler)
+            linemon.start(handler, cp_handler if (ip is not None or count_lines) else None)
         rec.in_run = True
         try:
             if out.kind == 'abort':
